@@ -438,6 +438,17 @@ def shrink_history(ctx, exe, ops, i, against_model):
     return pre + [small]
 
 
+def mask_tables(lines):
+    """the helper tables outside the arguments hex.c passes (nibble: only characters isxdigit accepted; hexchar: 0..15) are not
+    behaviour of the library: a rewrite of a helper may answer anything there"""
+    try:
+        nib = lines[2].split()[1].split(','); hc = lines[3].split()[1].split(',')
+        return [lines[0], lines[1], 'nibble ' + ','.join(x if c in XD else '_' for c, x in enumerate(nib)),
+                'hexchar ' + ','.join(x if c < 16 else '_' for c, x in enumerate(hc))]
+    except (IndexError, AttributeError):
+        return lines
+
+
 def examine(ctx, exe, ops, label, stats, spec_only=False):
     """run ops through implementation and model; report the first op that contradicts the property (violation,
     shrunk) or on which model and implementation differ (broken correspondence).  Returns #ops that agreed."""
@@ -448,6 +459,8 @@ def examine(ctx, exe, ops, label, stats, spec_only=False):
     agreed = 0
     for i, (op, io, mo) in enumerate(zip(ops, impl, model)):
         why = op.spec(io)
+        if op.kind == 'tables' and why is None:
+            io, mo = mask_tables(io), mask_tables(mo)
         if spec_only and why is None:
             continue                         # deep search: the model is already known to differ; only the property's own clauses count
         if why is None and io == mo:
@@ -553,7 +566,7 @@ def build_ops(ctx, rng):
 def run(ctx):
     rng = vlib.Rng(ctx.seed)
     import regen
-    for u, e in regen.regen(['Hex']):      # tie T for the pure helpers hexchar / nibble
+    for u, e in regen.regen(['HexSeq']):      # tie T for the pure helpers hexchar / nibble
         ctx.broken.append(f'tie T: tools/c2lean.py cannot translate unit {u}: {e}')
     ctx.prove(['Librfn.Props.C18', 'Librfn.Props.C18Tie'], REQUIRED + ['Librfn.C18.hexchar_tie', 'Librfn.C18.nibble_tie'])
     exe = harness(ctx)
